@@ -95,7 +95,9 @@ let run path =
       "c20_closes", ConnSpec6.c20_closes; "c16_quiescent_dequeuing", ConnSpec6.c16_quiescent_dequeuing;
       "c08_deqack_after_store", ConnSpec6.c08_deqack_after_store; "c08_store_replica", ConnSpec6.c08_store_replica;
       (* the two connection-wide links of the end-to-end composition (coq/Broker/EndToEnd.v, Props/C15_e2e.v) *)
-      "c15_forward_link", EndToEnd.forward_link; "c15_arrival_link", EndToEnd.arrival_link ] in
+      "c15_forward_link", EndToEnd.forward_link; "c15_arrival_link", EndToEnd.arrival_link;
+      (* conservation ledger of dequeued QoS>0 messages (coq/Broker/ConnSpec7.v, Props/C08_ledger.v) *)
+      "c08_ledger", ConnSpec7.c08_ledger ] in
     L.iter (fun (name, f) ->
       if not (f pevs) then begin
         (* shortest failing prefix = position of the offending event *)
